@@ -170,7 +170,14 @@ def main(ck, tier, w):
     rng = random.Random(seed)
     rng.shuffle(reps)
     reps = reps[:1200 if quick else 15000]
-    ck.cov['complete_chains_in_model'] = len(res.replay)
+    # three-block chains of single-transaction blocks: a block between two others (e.g. the one at the halving height) with and
+    # without a coinbase
+    res3 = run.tlc('MC_Stats', 'MC_Stats_3', workers=12, timeout=3000, heap='16g')
+    ck.add_tlc(res3, 'MC_Stats_3')
+    reps3 = res3.replay
+    rng.shuffle(reps3)
+    reps += reps3[:500 if quick else 17000]
+    ck.cov['complete_chains_in_model'] = len(res.replay) + len(res3.replay)
     ck.cov['rule'] = ('TLC: accumulators = declarative figures after every block over all chains of the model; %d complete chains replayed on '
                       'the real binary; random chains with sums beyond 2^32; non-trivial = chain with a tie for a maximum, a clamped '
                       '(negative) time gap, or a coinbase at/below the reward') % len(reps)
